@@ -3,7 +3,7 @@
    about shuffle, and non-vacuity examples. *)
 From Coq Require Import ZArith List Bool Lia Permutation.
 From Cspuz Require Import Lib.PyErr Generator.XorShift Generator.XorShiftProofs Generator.Builder
-  Generator.BuilderProofs Generator.Anneal Generator.AnnealProofs.
+  Generator.BuilderProofs Generator.Anneal Generator.AnnealProofs Generator.ShuffleBij.
 Import ListNotations.
 Open Scope Z_scope.
 
@@ -30,11 +30,15 @@ Qed.
 Lemma randint_valid_no_raise a b s e : a <= b -> b - a + 1 <= M32 -> randint a b s <> Raise e.
 Proof. intros H1 H2 E. apply randint_raises in E. lia. Qed.
 
-(* shuffle: full statement (every permutation reachable by exactly one vector of
-   draws j_i in [0, i]) -- the unproved stretch goal, kept visible *)
-Definition shuffle_bijective_statement : Prop :=
-  forall (A : Type) (l l' : list A) s s',
-    shuffle l s = Done l' s' -> Permutation l l'.
+(* shuffle: the result is a permutation of the argument, obtained as shuffle_with js from the
+   draws js it makes, draw k lying in [0, k + 1]; and (Generator/ShuffleBij.v) the map from
+   admissible draw vectors to permutations of a duplicate-free list is a bijection. *)
+Lemma shuffle_permutation (A : Type) (l l' : list A) s s' :
+  shuffle l s = Done l' s' ->
+  Permutation l l' /\
+  exists js, length js = (length l - 1)%nat /\ l' = shuffle_with js 1 l /\
+             forall k j, nth_error js k = Some j -> (j <= S k)%nat.
+Proof. intros H. split; [eapply shuffle_perm; eauto|eapply shuffle_draws; eauto]. Qed.
 
 (* ------------------------------------------------------------------ builder level *)
 
